@@ -487,7 +487,9 @@ impl<'a> Model<'a> {
         // attribution inside its content class: packets go out in acceptance order, every accepted
         // member must get one, cancelled members only if there are packets to spare.
         if let Some(r) = rec.request {
-            if matches!(res, OpRes::Handle(_)) && !self.req_matched[r] {
+            // (not while the request is legitimately queued behind a paced retransmission: its
+            // packet is not on the wire yet)
+            if matches!(res, OpRes::Handle(_)) && !self.req_matched[r] && self.deferred_by_window(tr).is_none() {
                 self.rebalance_class(r);
             }
         }
@@ -743,6 +745,10 @@ impl<'a> Model<'a> {
             }
             let acc = accepted(q);
             if acc || left > need {
+                // a packet cannot belong to a request that was made after it went out
+                if self.flights[flights[next]].first_op.is_some_and(|o| o < reqs[q].op) {
+                    return;
+                }
                 assign.push((flights[next], q));
                 next += 1;
                 left -= 1;
